@@ -394,7 +394,7 @@ func (pp *Prepass) instrWrites(fn *ssa.Function, ins ssa.Instruction, ws KeySet)
 			for _, a := range cc.Args {
 				if pt, ok := a.Type().Underlying().(*types.Pointer); ok {
 					if _, isStruct := pt.Elem().Underlying().(*types.Struct); !isStruct {
-						ws[MemKey(tm.SortOf(pt.Elem()))] = true
+						ws[tm.MemKey(pt.Elem())] = true
 					}
 				}
 			}
@@ -476,7 +476,7 @@ func (pp *Prepass) addrKeys(addr ssa.Value, ws KeySet) {
 			return
 		}
 		if pp.AddrTaken[key] {
-			ws[MemKey(tm.SortOf(ft))] = true
+			ws[tm.MemKey(ft)] = true
 		} else {
 			ws[key] = true
 		}
@@ -527,7 +527,7 @@ func (pp *Prepass) pointeeKeys(ptrType types.Type, ws KeySet) {
 		pp.structKeys(el, ws)
 		return
 	}
-	ws[MemKey(pp.tm.SortOf(el))] = true
+	ws[pp.tm.MemKey(el)] = true
 }
 
 func (pp *Prepass) structKeys(t types.Type, ws KeySet) {
@@ -540,7 +540,7 @@ func (pp *Prepass) structKeys(t types.Type, ws KeySet) {
 		}
 		key := pp.tm.FieldKey(t, i)
 		if pp.AddrTaken[key] {
-			ws[MemKey(pp.tm.SortOf(ft))] = true
+			ws[pp.tm.MemKey(ft)] = true
 		} else {
 			ws[key] = true
 		}
